@@ -142,6 +142,15 @@ func (r *Run) Violate(signature, detail string, c any) {
 	v := &Violation{Signature: signature, Detail: detail, Case: c, Count: 1}
 	r.vio[signature] = v
 	r.R.Violations = append(r.R.Violations, v)
+	// sidecar: a violation found before something kills the process (a fatal runtime error, goroutines
+	// that can never finish at the end of a bubble) is not lost with the worker
+	if out := os.Getenv("VERIF_OUT"); out != "" {
+		if f, err := os.OpenFile(out+".viol", os.O_CREATE|os.O_WRONLY|os.O_APPEND, 0o644); err == nil {
+			b, _ := json.Marshal(v)
+			_, _ = f.Write(append(b, '\n'))
+			_ = f.Close()
+		}
+	}
 }
 
 // Skip supports restarting a worker after a case killed the process (a panic in a goroutine no
